@@ -16,8 +16,9 @@ from . import gobuild, leanside, run as runmod
 from .gen import Rng
 
 VERIF = gobuild.VERIF
-EVIDENCE_DIR = os.path.join(VERIF, "evidence")
-REPLAY_DIR = os.path.join(VERIF, "replays")
+# (overridable so that experiments on a patched copy of the repository do not clobber the committed evidence)
+EVIDENCE_DIR = os.environ.get("VERIF_EVIDENCE_DIR", os.path.join(VERIF, "evidence"))
+REPLAY_DIR = os.environ.get("VERIF_REPLAY_DIR", os.path.join(VERIF, "replays"))
 KNOWN_PATH = os.path.join(VERIF, "known_findings.json")
 
 TRUSTED_BASE_COMMON = [
